@@ -1,9 +1,11 @@
 #!/bin/sh
-# Run once after a fresh restore, offline: warms the build cache and builds vcheck.
+# Run once after a fresh restore, offline: warms the build cache and builds vcheck
+# (session/pure engines) and vcheck-b (schedule engine, instrumented overlay build).
 set -e
 cd "$(dirname "$0")"
 export GOFLAGS=-mod=mod GOPROXY=off
 mkdir -p bin evidence replays
 go build -tags verif -o bin/vcheck ./cmd/vcheck
+./build_b.sh
 (cd /repo && go build ./... && go vet -tags verif . >/dev/null 2>&1 || true)
 echo "setup ok"
